@@ -2,23 +2,25 @@
 From DustDDS Require Import Base.Machine Sched.TimerBlockModel.
 Open Scope Z_scope.
 
+Definition done_after (s : bst) (x : Z) : Prop :=
+  match b_done s with Some t => x <= t | None => True end.
+
 Definition binv (s : bst) : Prop :=
   b_start s <= b_clock s /\
-  (forall t, b_done s = Some t -> t <= b_clock s) /\
+  match b_done s with Some t => t <= b_clock s | None => True end /\
   match b_pc s with
-  | BPolling => True
+  | BPolling | BWoken => True
   | BChecking => b_done s <> None -> b_tok s = true
   | BWaiting lim => lim = b_start s + b_dur s /\ (b_done s <> None -> b_tok s = true)
-  | BDone BTimeout unseen at_ =>
-      b_start s + b_dur s <= at_ <= b_clock s /\
-      (unseen = false -> forall t, b_done s = Some t -> at_ <= t)
-  | BDone (BOk v) _ at_ => v = b_val s /\ exists t, b_done s = Some t /\ t <= at_
+  | BLastPoll => b_start s + b_dur s < b_clock s
+  | BDone BTimeout at_ => b_start s + b_dur s <= at_ <= b_clock s /\ done_after s at_
+  | BDone (BOk v) at_ => v = b_val s /\ exists t, b_done s = Some t /\ t <= at_
   end.
 
 Lemma bconst_step : forall s o,
   b_start (bstep s o) = b_start s /\ b_dur (bstep s o) = b_dur s /\ b_val (bstep s o) = b_val s.
 Proof.
-  intros s o. destruct o; cbn [bstep]; unfold bwake, set_bpc;
+  intros s o. destruct o; cbn [bstep]; unfold bwake, set_bpc, take_tok;
     repeat match goal with |- context [match ?x with _ => _ end] => destruct x end; cbn; auto.
 Qed.
 
@@ -32,52 +34,38 @@ Proof.
 Qed.
 
 Lemma binv_init : forall now dur val, binv (binit now dur val).
-Proof. intros. unfold binv, binit. cbn. repeat split; try lia. discriminate. Qed.
+Proof. intros. unfold binv, binit. cbn. repeat split; try lia. Qed.
+
+Ltac bsolve :=
+  repeat match goal with
+         | |- context [if ?b then _ else _] => destruct b eqn:?
+         end;
+  cbn [b_clock b_start b_dur b_val b_tok b_pc b_done b_polls negb andb] in *;
+  repeat match goal with
+         | H : (_ <=? _) = true |- _ => apply Z.leb_le in H
+         | H : (_ <=? _) = false |- _ => apply Z.leb_gt in H
+         | H : (_ <? _) = true |- _ => apply Z.ltb_lt in H
+         | H : (_ <? _) = false |- _ => apply Z.ltb_ge in H
+         | H : _ && _ = true |- _ => apply andb_true_iff in H; destruct H
+         | H : _ /\ _ |- _ => destruct H
+         | H : exists _, _ |- _ => destruct H
+         | H : Some ?x <> None -> _ |- _ => specialize (H ltac:(discriminate))
+         | H : negb _ = true |- _ => apply negb_true_iff in H
+         end;
+  try (intuition (try discriminate; try congruence; try lia); fail);
+  try (repeat split; try lia; try discriminate; try congruence; eauto;
+       try (eexists; split; [reflexivity|lia]); fail).
 
 Lemma binv_step : forall s o, binv s -> binv (bstep s o).
 Proof.
-  intros s o I. pose proof I as (Hs & Hd & Hp). destruct o; cbn [bstep].
-  - (* tick *) unfold binv. cbn [b_start b_clock b_done b_pc b_tok b_dur b_val].
-    split; [lia|]. split; [intros t Ht; specialize (Hd t Ht); lia|].
-    destruct (b_pc s) as [| |lim|[v|] u a]; auto.
-    destruct Hp as [A B]. split; [lia|exact B].
-  - (* complete *) destruct (b_done s) as [t0|] eqn:D.
-    + exact I.
-    + unfold bwake, binv.
-      cbn [b_start b_clock b_done b_pc b_tok b_dur b_val];
-        (split; [lia|]); (split; [intros t Ht; inversion Ht; lia|]);
-        (destruct (b_pc s) as [| |lim|[v|] u a]; auto;
-         [ destruct Hp as [A B]; split; auto
-         | destruct Hp as [A [t [B C]]]; discriminate
-         | destruct Hp as [A B]; split; [lia|]; intros U t Ht; inversion Ht; lia ]).
-  - (* spurious *) unfold bwake, binv.
-    cbn [b_start b_clock b_done b_pc b_tok b_dur b_val];
-      (split; [lia|]); (split; [exact Hd|]);
-      (destruct (b_pc s) as [| |lim|[v|] u a]; auto; destruct Hp as [A B]; split; auto).
-  - (* self wake *) destruct (b_pc s) eqn:P; try exact I.
-    unfold bwake, binv. cbn [b_start b_clock b_done b_pc b_tok b_dur b_val].
-    rewrite P. repeat split; auto.
-  - (* poll *) destruct (b_pc s) eqn:P; try exact I.
-    destruct (b_done s) as [t0|] eqn:D; unfold set_bpc, binv;
-      cbn [b_start b_clock b_done b_pc b_tok b_dur b_val]; try rewrite D;
-      (split; [lia|]); (split; [first [exact Hd | intros t Ht; apply Hd; congruence]|]).
-    + split; [reflexivity|]. exists t0. split; [reflexivity|]. apply Hd. congruence.
-    + intros N. congruence.
-  - (* check *) destruct (b_pc s) eqn:P; try exact I.
-    destruct (b_clock s - b_start s <=? b_dur s) eqn:C; unfold set_bpc, binv;
-      cbn [b_start b_clock b_done b_pc b_tok b_dur b_val]; (split; [lia|]); (split; [exact Hd|]).
-    + split; [reflexivity|exact Hp].
-    + apply Z.leb_gt in C. split; [lia|]. intros U t Ht.
-      assert (b_done s <> None) by congruence. rewrite (Hp H) in U. discriminate.
-  - (* recv ok *) destruct (b_pc s) eqn:P; try exact I.
-    destruct (b_tok s) eqn:T; [|exact I].
-    unfold binv; cbn [b_start b_clock b_done b_pc b_tok b_dur b_val]; auto.
-  - (* recv timeout *) destruct (b_pc s) eqn:P; try exact I.
-    destruct (negb (b_tok s) && (lim <=? b_clock s)) eqn:G; [|exact I].
-    apply andb_true_iff in G. destruct G as [G1 G2]. apply negb_true_iff in G1. apply Z.leb_le in G2.
-    destruct Hp as [A B]. unfold set_bpc, binv. cbn [b_start b_clock b_done b_pc b_tok b_dur b_val].
-    split; [lia|]. split; [exact Hd|]. split; [lia|]. intros _ t Ht.
-    assert (b_done s <> None) by congruence. rewrite (B H) in G1. discriminate.
+  intros [c st d v tk p dn n] o. unfold binv, done_after.
+  cbn [b_clock b_start b_dur b_val b_tok b_pc b_done b_polls].
+  intros (Hs & Hd & Hp).
+  destruct o; cbn [bstep]; unfold bwake, set_bpc, take_tok;
+    cbn [b_clock b_start b_dur b_val b_tok b_pc b_done b_polls];
+    destruct p as [| |lim| | |[w|] a]; destruct dn as [t0|];
+    cbn [b_clock b_start b_dur b_val b_tok b_pc b_done b_polls];
+    bsolve.
 Qed.
 
 Lemma binv_run : forall ops s, binv s -> binv (brun ops s).
@@ -86,35 +74,58 @@ Proof.
   change (brun (o :: ops) s) with (brun ops (bstep s o)). apply IH. now apply binv_step.
 Qed.
 
-(* block_timeout returns Timeout only after the whole duration has passed, and -
-   unless it took the else branch while a wake token was waiting in the channel -
-   only if the future had not completed by then (its completion, if any, is not
-   earlier than the return) *)
-Theorem block_timeout_only_late : forall ops now dur val unseen at_,
+(* block_timeout returns Timeout only after the whole duration has passed and only
+   if the future had not completed by then: its completion, if any, is not before
+   start + duration nor before the return (fix 8591c31 removed the class in which a
+   pending wake was ignored) *)
+Theorem block_timeout_only_late : forall ops now dur val at_,
   let s := brun ops (binit now dur val) in
-  b_pc s = BDone BTimeout unseen at_ ->
+  b_pc s = BDone BTimeout at_ ->
   now + dur <= at_ /\
-  (unseen = false -> forall t, b_done s = Some t -> now + dur <= t /\ at_ <= t).
+  (forall t, b_done s = Some t -> now + dur <= t /\ at_ <= t).
 Proof.
-  intros ops now dur val unseen at_ s P.
+  intros ops now dur val at_ s P.
   pose proof (binv_run ops _ (binv_init now dur val)) as (Hs & Hd & Hp). fold s in Hs, Hd, Hp.
   destruct (bconst_run ops (binit now dur val)) as (A & B & _). fold s in A, B. cbn in A, B.
   rewrite P in Hp. rewrite A, B in Hp. destruct Hp as [L U].
-  split; [lia|]. intros Hu t Ht. specialize (U Hu t Ht). lia.
+  split; [lia|]. intros t Ht. unfold done_after in U. rewrite Ht in U. lia.
 Qed.
 
-(* the excluded class is real: with a stall between the Pending poll and the clock
-   read, Timeout is returned although the future completed within the duration *)
-Theorem late_check_window_exists :
-  exists ops t at_,
-    let s := brun ops (binit 0 10 7) in
-    b_pc s = BDone BTimeout true at_ /\ b_done s = Some t /\ t < 0 + 10.
-Proof. exists [BPoll; BComplete; BTick 11; BCheck], 0, 11. vm_compute. auto. Qed.
+(* the scenario of the former finding C42-timeout-unseen-wake now ends in Ok: the poll
+   said Pending, the future completed (and woke) in time, the thread was stalled past
+   the duration - the wake is seen by try_recv and the last poll returns the output *)
+Theorem late_wake_is_seen : forall s,
+  binv s -> b_pc s = BChecking -> b_done s <> None -> b_dur s < b_clock s - b_start s ->
+  exists at_, b_pc (brun [BCheck; BCheck2; BPoll] s) = BDone (BOk (b_val s)) at_.
+Proof.
+  intros [c st d v tk p dn n] (Hs & Hd & Hp). cbn in *. intros P D L. subst p.
+  destruct dn as [t0|]; [|congruence]. rewrite (Hp D).
+  assert (E1 : (c - st <=? d) = false) by (apply Z.leb_gt; lia).
+  assert (E2 : (d <? c - st) = true) by (apply Z.ltb_lt; lia).
+  unfold brun. cbn [fold_left bstep b_pc b_clock b_start b_dur b_tok]. rewrite E1.
+  unfold take_tok. cbn [bstep b_pc b_clock b_start b_dur b_tok b_done b_val b_polls]. rewrite E2.
+  unfold set_bpc. cbn. eauto.
+Qed.
 
-(* After fix 7de0553 (try_send): a wake issued from inside poll - also with a token
-   already buffered - never blocks the polling thread: its place in the loop is
-   unchanged, a token is buffered afterwards, nothing else changes; and every wake,
-   from whichever thread, leaves the place of the blocked thread unchanged. *)
+Theorem late_wake_is_seen_reachable : forall ops now dur val,
+  let s := brun ops (binit now dur val) in
+  b_pc s = BChecking -> b_done s <> None -> b_dur s < b_clock s - b_start s ->
+  exists at_, b_pc (brun [BCheck; BCheck2; BPoll] s) = BDone (BOk val) at_.
+Proof.
+  intros ops now dur val s P D L.
+  destruct (late_wake_is_seen s (binv_run ops _ (binv_init now dur val)) P D L) as [a H].
+  destruct (bconst_run ops (binit now dur val)) as (_ & _ & C). fold s in C. cbn in C.
+  exists a. now rewrite <- C.
+Qed.
+
+Example late_wake_is_seen_run :
+  b_pc (brun [BPoll; BComplete; BTick 11; BCheck; BCheck2; BPoll] (binit 0 10 7)) = BDone (BOk 7) 11.
+Proof. reflexivity. Qed.
+
+(* a wake issued from inside poll - also with a token already buffered - never blocks
+   the polling thread (fix 7de0553): its place in the loop, the clock and the future
+   are unchanged, a token is buffered afterwards; a wake from any other thread does
+   not change the blocked thread's place either *)
 Theorem self_wake_never_blocks : forall s,
   b_pc (bstep s BSelfWake) = b_pc s /\
   (b_pc s = BPolling -> b_tok (bstep s BSelfWake) = true) /\
@@ -125,14 +136,12 @@ Proof.
     try discriminate.
 Qed.
 
-(* ... and the poll that follows proceeds as usual: Pending -> the clock check, or
-   Ready -> Ok(output) (the old hanging input: wake twice inside one poll) *)
 Theorem self_wake_then_poll_proceeds : forall s,
   b_pc s = BPolling ->
   let s' := brun [BSelfWake; BSelfWake; BPoll] s in
   match b_done s with
   | None => b_pc s' = BChecking /\ b_tok s' = true
-  | Some _ => exists at_, b_pc s' = BDone (BOk (b_val s)) false at_
+  | Some _ => exists at_, b_pc s' = BDone (BOk (b_val s)) at_
   end.
 Proof.
   intros s P. destruct s as [c st d v tk p dn n]. cbn in P. subst p.
@@ -140,25 +149,27 @@ Proof.
 Qed.
 
 (* Ok(v) is only ever the future's own output, returned after its completion *)
-Theorem block_timeout_ok_is_output : forall ops now dur val v u at_,
+Theorem block_timeout_ok_is_output : forall ops now dur val v at_,
   let s := brun ops (binit now dur val) in
-  b_pc s = BDone (BOk v) u at_ -> v = val /\ exists t, b_done s = Some t /\ t <= at_.
+  b_pc s = BDone (BOk v) at_ -> v = val /\ exists t, b_done s = Some t /\ t <= at_.
 Proof.
-  intros ops now dur val v u at_ s P.
+  intros ops now dur val v at_ s P.
   pose proof (binv_run ops _ (binv_init now dur val)) as (Hs & Hd & Hp). fold s in Hs, Hd, Hp.
   destruct (bconst_run ops (binit now dur val)) as (_ & _ & C). fold s in C. cbn in C.
   rewrite P in Hp. destruct Hp as [E X]. split; [congruence|exact X].
 Qed.
 
 (* a completed future whose wake token is in the channel is returned: the thread's
-   own next steps lead to Ok (no timing assumption) *)
+   own next steps lead to Ok whatever the clock says (in the loop or by the last poll) *)
 Theorem block_timeout_completes : forall s lim,
   b_pc s = BWaiting lim -> b_done s <> None -> b_tok s = true ->
-  exists at_, b_pc (brun [BRecvOk; BPoll] s) = BDone (BOk (b_val s)) false at_.
+  exists at_, b_pc (brun [BRecvOk; BCheck2; BPoll] s) = BDone (BOk (b_val s)) at_.
 Proof.
-  intros s lim P D T. unfold brun. cbn [fold_left bstep]. rewrite P, T.
-  destruct (b_done s) eqn:E; [|congruence].
-  cbn; eauto.
+  intros [c st d v tk p dn n] lim P D T. cbn in *. subst p tk.
+  destruct dn as [t0|]; [|congruence].
+  unfold brun. cbn [fold_left bstep b_pc b_tok]. unfold take_tok.
+  cbn [bstep b_pc b_clock b_start b_dur b_tok b_done b_val b_polls].
+  destruct (d <? c - st); cbn; eauto.
 Qed.
 
 (* ---------------------------------------------------------------- block_on *)
